@@ -396,12 +396,10 @@ where
                 let ts = Option::<Timestamp>::read_from(reader)?;
                 Ok(SyncNeedV1::Empty { ts })
             }
-            _ => {
-                // Read and discard the invalid tag to avoid issues, then create a proper error
-                let _ = reader.read_u8()?;
-                // This is a bit of a hack but should work for speedy contexts
-                panic!("Invalid SyncNeedV1 variant tag: {}", variant_tag);
-            }
+            _ => Err(speedy::Error::custom(format!(
+                "invalid SyncNeedV1 variant tag: {variant_tag}"
+            ))
+            .into()),
         }
     }
 }
